@@ -52,6 +52,7 @@ class Check:
         self.known_hit = {}  # key -> count
         self._seen_sig = {}
         self.max_replays_per_sig = 3
+        self.broken = None
 
     # -- counting
     def add(self, key, n=1):
@@ -61,8 +62,24 @@ class Check:
         if len(self.cov["samples"]) < cap:
             self.cov["samples"].append(obj)
 
+    # -- harness problems are never violations
+    def harness_problem(self, what, detail=None):
+        """A unit the harness could not judge: budget overruns (timeout / hang / memory) are listed as skipped;
+        an exception inside the harness marks the whole check as broken (exit 2)."""
+        kind = what.split(";")[0]
+        lst = self.cov.setdefault("harness_problems", [])
+        if len(lst) < 20:
+            lst.append({"what": what, "detail": detail})
+        if any(k in kind for k in ("timeout", "hang", "memory")):
+            self.cov["skipped_budget"] = self.cov.get("skipped_budget", 0) + 1
+        else:
+            self.broken = "harness problem: %s %s" % (what, str(detail)[:300])
+
     # -- violations
     def violation(self, signature, witness):
+        if signature.startswith("harness-"):
+            self.harness_problem(signature[len("harness-"):], witness)
+            return False
         """Register a violation with a coarse `signature` (call site / shape) and a replayable `witness` dict.
         Returns True if it is new (not a listed known finding)."""
         for key, what in self.known:
@@ -114,6 +131,8 @@ class Check:
             json.dump(ev, f, indent=1, default=str)
         summary = {k: v for k, v in cov.items() if isinstance(v, (int, float, bool))}
         print("%s %s: %s wall=%.1fs" % (self.prop, self.tier, json.dumps(summary), ev["wall_s"]))
+        if self.broken:
+            raise Broken(self.broken)
         if guards:
             for name, val in guards.items():
                 if not val:
